@@ -254,6 +254,10 @@ def generate(streams: Streams, tier: str, index: int) -> dict:
             "disk_fault": None,
             "pde": {"kind": rng.choice(["cahn_hilliard", "allen_cahn"]),
                     "seed": rng.randrange(1 << 30)}}
+    if mode == "B" and end == "t_end" and frng.random() < 0.2:
+        span = min(t1 - t0, 6 * dt)
+        start2 = frng.choice([t0, t1, 0, t1 + 3 * dt])
+        case["second_run"] = [start2, start2 + span]
     if frng.random() < 0.25:
         case["disk_fault"] = {"kind": frng.choice(["enospc", "eio", "enospc_torn", "truncate_eio"]),
                               "k": frng.randint(1, 12)}
@@ -441,9 +445,15 @@ def execute(case: dict) -> Outcome:
                 pre_spec["frames"] = pre_spec["frames"][: spec["prefill"]]
                 pre_spec["times"] = [-100 + i for i in range(spec["prefill"])]
                 pre = gen.build(pre_spec)
-            tr = droplets.DropletTracker(
-                ints, filename=f"{simfs.ROOT}/droplets_{ti}.h5" if spec["filename"] else None,
-                emulsion_timecourse=pre, source=resolve_source(spec.get("source")), **kw)
+            if spec.get("defaults") and spec.get("source") is None:
+                # the convenience constructor of the time course itself
+                pre = pre if pre is not None else droplets.EmulsionTimeCourse()
+                tr = pre.tracker(ints, filename=f"{simfs.ROOT}/droplets_{ti}.h5" if spec["filename"] else None)
+                cnt.inc("probe.tracker_via_timecourse")
+            else:
+                tr = droplets.DropletTracker(
+                    ints, filename=f"{simfs.ROOT}/droplets_{ti}.h5" if spec["filename"] else None,
+                    emulsion_timecourse=pre, source=resolve_source(spec.get("source")), **kw)
             tr._verif_prefill_fp = gen.fingerprint(pre) if pre is not None else None
             tr._verif_prefill_n = spec.get("prefill", 0)
         else:
@@ -751,12 +761,26 @@ def _drive_controller(case, objs, frames_data, grid, clock, fs, log, cnt, aborte
 
         tr.finalize = fin
     try:
-        ctrl.run(state, dt=case["dt"])
+        final = ctrl.run(state, dt=case["dt"])
     except InjectedStepperError as exc:
         return False, exc
     except Exception as exc:
         return ran["finalize"], exc
     cnt.inc(f"end.{ctrl.info.get('stop_reason', '?').replace(' ', '_')}")
+    if case.get("second_run") and case["mode"] == "B":
+        # the same tracker objects are used for a second run (a continued / restarted
+        # simulation): the fields and times of both runs form one sequence
+        cnt.inc("fault.second_run_same_trackers")
+        log.add("second_run", t_range=case["second_run"])
+        for spec, tr in objs:
+            tr._verif_finalize_failed = False
+        solver2 = ScriptedSolver(frames_data[::-1], case["dt"], clock, case["clock"]["costs"],
+                                 {"kind": "t_end", "at": 0}, case["collection"], log, cnt)
+        ctrl2 = Controller(solver2, t_range=tuple(case["second_run"]), tracker=[tr for _, tr in objs])
+        try:
+            ctrl2.run(final if final is not None else state, dt=case["dt"])
+        except Exception as exc:
+            return ran["finalize"], exc
     return ran["finalize"], None
 
 
@@ -882,6 +906,8 @@ def shrink(case: dict):
             yield {**c, "clock": {"costs": [0.01]}}
     if c.get("disk_fault"):
         yield {**c, "disk_fault": None}
+    if c.get("second_run"):
+        yield {k: v for k, v in c.items() if k != "second_run"}
     for ti, t in enumerate(c["trackers"]):
         def rep(nt):
             return {**c, "trackers": c["trackers"][:ti] + [nt] + c["trackers"][ti + 1:]}
@@ -913,4 +939,5 @@ def describe(case: dict) -> dict:
                         "noise": f.get("noise")} for f in case["frames"]],
             "t_range": case["t_range"], "dt": case["dt"], "trackers": case["trackers"],
             "end": case["end"], "clock": case["clock"], "disk_fault": case["disk_fault"],
+            "second_run": case.get("second_run"),
             "schedule": case.get("schedule")}
